@@ -47,7 +47,7 @@ class C09(PropBase):
     lean_modules = ["SqModel.Props.C09", "SqModel.Proofs.Bridge", "SqModel.Proofs.BridgePlane"]
     extractors = ["trans"]
     rule = ("TC19 subtype 1/2 squitters over a stratified grid of east/north sign+magnitude fields (all boundaries 0,1,2,1022,1023, "
-            "the exact 45-degree directions, random), all 2x512 vertical-rate codes, random other bits; DF::from_message and the "
+            "the exact 45-degree directions, every pair of magnitudes whose track is within 2e-4 degrees of a whole degree (sweep over all 1022x1022), random), all 2x512 vertical-rate codes, random other bits; DF::from_message and the "
             "row after the frame (creating / after a DF11 / after another velocity squitter with different values / right after an accepted BDS 5,0 reply, -U/-R on/off). Expected values: exact integer square root and an exact "
             "(60-digit) floor(atan2) computed here, and the Lean spec line. Non-trivial = both components present; distinct by frame.")
     assumptions = ["f64 sqrt/atan2/to_degrees are modelled: the model takes atan2deg as a parameter; the implementation's track is "
@@ -67,6 +67,23 @@ class C09(PropBase):
                     out.append((dew, k, dns, k))          # |vew| = |vns|
                     out.append((dew, 1, dns, k))          # vew = 0
                     out.append((dew, k, dns, 1))          # vns = 0
+        # directions that are numerically delicate: component pairs whose exact track lies within 2e-4 degrees of a whole
+        # degree without being one - where a shorter float type, another atan2 or another rounding puts the floor on the
+        # neighbouring degree (about 400 pairs per quadrant, found by a sweep over all 1022 x 1022 magnitudes)
+        import math
+        near = []
+        for x in range(1, 1023):
+            for y in range(1, 1023):
+                if x == y:
+                    continue
+                d = math.degrees(math.atan2(x, y))
+                f = abs(d - round(d))
+                if f < 2e-4:
+                    near.append((x, y))
+        for (x, y) in near:
+            for dew in (0, 1):
+                for dns in (0, 1):
+                    out.append((dew, x + 1, dns, y + 1))
         while len(out) < n:
             out.append((rng.randrange(2), rng.randrange(1024), rng.randrange(2), rng.randrange(1024)))
         return out
